@@ -44,6 +44,8 @@ type World struct {
 	WarmFail    bool
 	WarmUp      bool // guns implement WarmedUp
 	WarmDur     time.Duration
+	Waited      *bool     // set by the harness when Engine.Wait has returned
+	Late        []string  // what components were asked to do after Engine.Wait had returned
 	ProvBuf     int       // size of the provider's queue (0: hands items over one by one)
 	OutAt       time.Time // when an instance first found the ammo exhausted
 	Closable    bool
@@ -107,6 +109,7 @@ func NewProv(w *World) *Prov { return &Prov{w: w, sink: make(chan core.Ammo, w.P
 
 func (p *Prov) Run(ctx context.Context, _ core.ProviderDeps) error {
 	w := p.w
+	w.late("the provider was started")
 	w.ProvRunEnd = 1
 	defer func() { w.ProvRunEnd = 2 }()
 	if w.ProvFailAt == 0 {
@@ -161,6 +164,7 @@ type Agg struct{ w *World }
 
 func (a *Agg) Run(ctx context.Context, _ core.AggregatorDeps) error {
 	w := a.w
+	w.late("the aggregator was started")
 	w.AggRunEnd = 1
 	defer func() { w.AggRunEnd = 2 }()
 	if w.AggFailAt == "start" {
@@ -229,7 +233,15 @@ func (g warmClosableGun) WarmUp(o *warmup.Options) (any, error) {
 	return warmGun{g.Gun}.WarmUp(o)
 }
 
+// late notes an activity of a component that begins after Engine.Wait has returned.
+func (w *World) late(what string) {
+	if w.Waited != nil && *w.Waited {
+		w.Late = append(w.Late, what)
+	}
+}
+
 func (w *World) NewGun() (core.Gun, error) {
+	w.late("a gun was created")
 	idx := len(w.Guns)
 	g := &Gun{w: w, Index: idx, Owner: -1, CreatedAt: time.Now()}
 	w.Guns = append(w.Guns, g)
@@ -258,6 +270,7 @@ func (g *Gun) Bind(a core.Aggregator, d core.GunDeps) error {
 
 func (g *Gun) Shoot(ammo core.Ammo) {
 	w := g.w
+	w.late("a request was fired")
 	id := vs.CurrentID()
 	if g.inShoot {
 		w.Overlap = append(w.Overlap, fmt.Sprintf("gun %d asked to fire twice at the same time", g.Index))
